@@ -29,7 +29,7 @@ var c16Targets = []struct {
 	off      int
 }{{"932100", "932100", 0}, {"932110-chain1", "932110", 1}, {"932200", "932200", 0}}
 
-var assemblyFaults = []string{"missing-include", "missing-exclude-file", "unparsable-entry", "unknown-processor", "bad-cmdline-type", "missing-cmdline-type", "extra-end-marker", "missing-end-marker", "unknown-stored-name", "unsupported-flag", "odd-replacement-list", "flags-in-include"}
+var assemblyFaults = []string{"missing-include", "missing-exclude-file", "unparsable-entry", "unknown-processor", "bad-cmdline-type", "missing-cmdline-type", "extra-end-marker", "missing-end-marker", "unknown-stored-name", "stored-name-of-another-file", "unsupported-flag", "odd-replacement-list", "flags-in-include"}
 var rulesFaults = []string{"rule-id-absent", "chain-offset-beyond-chain", "no-rules-file", "two-rules-files", "target-without-rx"}
 var formatFaults = []string{"extra-end-marker", "unsupported-flag"}
 
@@ -110,6 +110,8 @@ func c16FaultLines(fault string) []string {
 		return []string{"##!> assemble", "unterminated"}
 	case "unknown-stored-name":
 		return []string{"##!=> never-stored"}
+	case "stored-name-of-another-file":
+		return []string{"##!=> stored-elsewhere"}
 	case "unsupported-flag":
 		return []string{"##!+ x"}
 	case "odd-replacement-list":
@@ -135,6 +137,10 @@ func (c C16Case) build(withFault bool) cli.Tree {
 		inject := withFault && i == c.File && fl != nil
 		if inject && c.Where == "top" && c.Fault == "unsupported-flag" {
 			lines = append(lines, fl...)
+		}
+		if withFault && c.Fault == "stored-name-of-another-file" && i != c.File {
+			// the other files store the name the faulty unit tries to load
+			lines = append(lines, "prefix"+tg.id, "##!=< stored-elsewhere", "##!=> stored-elsewhere")
 		}
 		lines = append(lines, w[0])
 		if c.Block[i] {
